@@ -375,7 +375,7 @@ Fixpoint levels_overlap (l : list (nat * list phandle)) : bool :=
 Definition final_diags (s : st) : list diag :=
   let pre := map InvalidPredef (s_errs s) in
   match table_diags s with
-  | _ :: _ as td => pre ++ td                     (* table.Verify failed: returned at once *)
+  | (_ :: _) as td => pre ++ td                   (* table.Verify failed: returned at once *)
   | [] =>
     pre
     ++ flat_map (fun A => if existsb (fun p => String.eqb (fst p) A) (s_prods s) then [] else [NoProductionFor A]) (s_nts s)
